@@ -248,23 +248,7 @@ func (c gConfig) toml() string {
 // ---------------------------------------------------------------------------------------------
 // interning and token encoding of the raw view (external parser results included)
 
-type interner struct {
-	ids map[string]int
-}
-
-func (in *interner) id(s string) int {
-	if s == "" {
-		return 0
-	}
-	if in.ids == nil {
-		in.ids = map[string]int{}
-	}
-	if v, ok := in.ids[s]; ok {
-		return v
-	}
-	in.ids[s] = len(in.ids) + 1
-	return in.ids[s]
-}
+type interner = vfh.Interner
 
 type enc struct {
 	t     *vfh.Toks
@@ -356,13 +340,13 @@ func prefCode(s string) int {
 
 func (e *enc) iface(i gIface) {
 	t := e.t
-	t.N(e.names.id(i.name)).N(len(i.names))
+	t.N(e.names.ID(i.name)).N(len(i.names))
 	for _, n := range i.names {
 		// an empty element of `names` is a (strange but accepted) interface name: give it its own id
 		if n == "" {
-			t.N(e.names.id("\x00empty"))
+			t.N(e.names.ID("\x00empty"))
 		} else {
-			t.N(e.names.id(n))
+			t.N(e.names.ID(n))
 		}
 	}
 	t.B(i.monitor).B(i.advertise).B(i.verbose)
@@ -412,7 +396,7 @@ func (e *enc) iface(i gIface) {
 		e.durPtr(d.lifetime)
 		t.N(len(d.names))
 		for _, n := range d.names {
-			t.N(e.doms.id(n) + 0)
+			t.N(e.doms.ID(n) + 0)
 		}
 	}
 	t.N(len(i.pref64))
@@ -433,7 +417,7 @@ func (e *enc) iface(i gIface) {
 	} else if cp, err := ndp.NewCaptivePortal(i.captivePortal); err != nil {
 		t.S("X")
 	} else {
-		t.S("C").N(e.uris.id(cp.URI)).N(len(cp.URI))
+		t.S("C").N(e.uris.ID(cp.URI)).N(len(cp.URI))
 	}
 }
 
@@ -464,14 +448,14 @@ func (e *enc) plugin(t *vfh.Toks, p plugin.Plugin) {
 	case *plugin.DNSSL:
 		t.N(3).I(int64(p.Lifetime)).N(len(p.DomainNames))
 		for _, n := range p.DomainNames {
-			t.N(e.doms.id(n))
+			t.N(e.doms.ID(n))
 		}
 	case *plugin.MTU:
 		t.N(4).N(int(*p))
 	case *plugin.LLA:
 		t.N(5)
 	case *plugin.CaptivePortal:
-		t.N(6).N(e.uris.id(p.Portal.URI)).N(len(p.Portal.URI))
+		t.N(6).N(e.uris.ID(p.Portal.URI)).N(len(p.Portal.URI))
 	case *plugin.PREF64:
 		t.N(7).Prefix(p.Inner.Prefix).I(int64(p.Inner.Lifetime))
 	default:
@@ -484,7 +468,7 @@ func (e *enc) parsedIface(t *vfh.Toks, i Interface) {
 	if name == "" {
 		name = "\x00empty"
 	}
-	t.N(e.names.id(name)).B(i.Monitor).B(i.Advertise).B(i.Verbose).I(int64(i.MinInterval)).I(int64(i.MaxInterval)).
+	t.N(e.names.ID(name)).B(i.Monitor).B(i.Advertise).B(i.Verbose).I(int64(i.MinInterval)).I(int64(i.MaxInterval)).
 		B(i.Managed).B(i.OtherConfig).I(int64(i.ReachableTime)).I(int64(i.RetransmitTimer)).N(int(i.HopLimit)).
 		I(int64(i.DefaultLifetime)).B(i.UnicastOnly).N(int(i.Preference)).N(len(i.Plugins))
 	for _, p := range i.Plugins {
@@ -492,47 +476,9 @@ func (e *enc) parsedIface(t *vfh.Toks, i Interface) {
 	}
 }
 
-func macToks(t *vfh.Toks, mac net.HardwareAddr) {
-	var v uint64
-	for _, b := range mac {
-		v = v<<8 | uint64(b)
-	}
-	t.N(len(mac)).U(v)
-}
+func macToks(t *vfh.Toks, mac net.HardwareAddr) { t.MAC(mac) }
 
-func (e *enc) ra(t *vfh.Toks, ra *ndp.RouterAdvertisement) {
-	t.N(int(ra.CurrentHopLimit)).B(ra.ManagedConfiguration).B(ra.OtherConfiguration).N(int(ra.RouterSelectionPreference)).
-		I(int64(ra.RouterLifetime)).I(int64(ra.ReachableTime)).I(int64(ra.RetransmitTimer)).N(len(ra.Options))
-	for _, o := range ra.Options {
-		switch o := o.(type) {
-		case *ndp.PrefixInformation:
-			t.N(0).Addr(o.Prefix).N(int(o.PrefixLength)).B(o.OnLink).B(o.AutonomousAddressConfiguration).I(int64(o.ValidLifetime)).I(int64(o.PreferredLifetime))
-		case *ndp.RouteInformation:
-			t.N(1).Addr(o.Prefix).N(int(o.PrefixLength)).N(int(o.Preference)).I(int64(o.RouteLifetime))
-		case *ndp.RecursiveDNSServer:
-			t.N(2).I(int64(o.Lifetime)).N(len(o.Servers))
-			for _, s := range o.Servers {
-				t.Addr(s)
-			}
-		case *ndp.DNSSearchList:
-			t.N(3).I(int64(o.Lifetime)).N(len(o.DomainNames))
-			for _, n := range o.DomainNames {
-				t.N(e.doms.id(n))
-			}
-		case *ndp.MTU:
-			t.N(4).N(int(o.MTU))
-		case *ndp.LinkLayerAddress:
-			t.N(5)
-			macToks(t, o.Addr)
-		case *ndp.CaptivePortal:
-			t.N(6).N(e.uris.id(o.URI)).N(len(o.URI))
-		case *ndp.PREF64:
-			t.N(7).Prefix(o.Prefix).I(int64(o.Lifetime))
-		default:
-			t.S(fmt.Sprintf("?%T", o))
-		}
-	}
-}
+func (e *enc) ra(t *vfh.Toks, ra *ndp.RouterAdvertisement) { t.RA(ra, &e.doms, &e.uris) }
 
 // ---------------------------------------------------------------------------------------------
 // value generators
